@@ -163,6 +163,9 @@ type PoolEntry struct {
 	Subscribers    int
 	MaxSubscribers int
 	Flags          uint32
+
+	// usedSlots[i] is true while block i (ports rangeStart+i*PortsPerSub ...) is held by a subscriber
+	usedSlots []bool
 }
 
 // Allocation tracks NAT allocation for a subscriber
@@ -328,6 +331,9 @@ func (m *Manager) AddPublicIP(ip net.IP) error {
 		MaxSubscribers: maxSubs,
 		Flags:          m.buildFlags(),
 	}
+	if maxSubs > 0 {
+		entry.usedSlots = make([]bool, maxSubs)
+	}
 
 	m.pool = append(m.pool, entry)
 
@@ -429,8 +435,20 @@ func (m *Manager) AllocateNAT(privateIP net.IP) (*Allocation, error) {
 		return nil, fmt.Errorf("NAT pool exhausted: no available public IPs")
 	}
 
-	// Calculate port range for this subscriber (deterministic based on subscriber count)
-	portStart := uint16(m.portRangeStart + (selectedPool.Subscribers * m.portsPerSubscriber))
+	// Pick the first free block of this public IP. The block must not be derived from the
+	// current subscriber count: after a release from the middle that count points at a block
+	// which is still held by another subscriber.
+	slot := -1
+	for i, used := range selectedPool.usedSlots {
+		if !used {
+			slot = i
+			break
+		}
+	}
+	if slot < 0 {
+		return nil, fmt.Errorf("NAT pool exhausted: no free port block on %s", selectedPool.PublicIP)
+	}
+	portStart := uint16(m.portRangeStart + (slot * m.portsPerSubscriber))
 	portEnd := portStart + uint16(m.portsPerSubscriber) - 1
 
 	// Get or create subscriber ID
@@ -476,6 +494,7 @@ func (m *Manager) AllocateNAT(privateIP net.IP) (*Allocation, error) {
 	m.allocationMu.Unlock()
 
 	selectedPool.Subscribers++
+	selectedPool.usedSlots[slot] = true
 
 	// Log allocation event
 	if m.natLogger != nil {
@@ -521,7 +540,14 @@ func (m *Manager) DeallocateNAT(privateIP net.IP) error {
 	// Update pool count
 	m.poolMu.Lock()
 	if allocation.PoolIndex < len(m.pool) {
-		m.pool[allocation.PoolIndex].Subscribers--
+		entry := &m.pool[allocation.PoolIndex]
+		entry.Subscribers--
+		if m.portsPerSubscriber > 0 {
+			slot := (int(allocation.PortStart) - m.portRangeStart) / m.portsPerSubscriber
+			if slot >= 0 && slot < len(entry.usedSlots) {
+				entry.usedSlots[slot] = false
+			}
+		}
 	}
 	m.poolMu.Unlock()
 
